@@ -24,7 +24,7 @@ Payloads(t) ==
       [] t = "fint" -> {"3", "0", "1"}
       [] t = "fbool" -> {"true", "false"}
       [] t = "fboolorfloat" -> {"true", "false", "2.5"}
-      [] t = "fintlist" -> {"[1,2,3]", "[]", "[7]"}
+      [] t = "fintlist" -> {"[1,2,3]", "[]", "[7]", "[0,2]"}
       [] t = "f1dfloatduple" -> {"(1.5,2)"}
       [] t = "f2dfloatarray" -> {"[[1,2],[3,4.5]]"}
 
